@@ -11,7 +11,7 @@ LEVEL_TEXT = (
     'label is the dequeued depth + 1 and initial states have depth 1; the share-out keeps the local '
     'queue order. Minimality itself is the textbook consequence for one thread and is not computed.')
 
-FLOORS = {'C13-R1': 2, 'C13-R2': 2, 'C13-R3': 2, 'C13-R4': 2, 'C13-R5': 1, 'C13-R6': 1, 'C01-R4': 5}
+FLOORS = {'C13-R1': 2, 'C13-R2': 3, 'C13-R3': 2, 'C13-R4': 2, 'C13-R5': 1, 'C13-R6': 1, 'C01-R4': 5}
 
 ENDS = {'pop_back': 'back', 'pop_front': 'front', 'push_back': 'back', 'push_front': 'front'}
 
@@ -39,6 +39,8 @@ def run(ctx):
     with ctx.rule('C13-R2', 'BFS'):
         cb = CB(F, 'BFS')
         b = cb.b
+        from checkers import no_stray_evaluations
+        no_stray_evaluations(ctx, cb, 'C13-R2')
         fe = []
         for c in cb.disc_contains:
             if b.dominates(c.bb, cb.exp_main.bb):
